@@ -52,7 +52,7 @@ def events(ctx):
     for _ in range(ctx.q(20000, 1000000)):
         sfx = [] if rng.random() < 0.6 else [rng.randrange(256) for _ in range(rng.randrange(1, 20))]
         p = rand_params(rng)
-        via = "setter" if rng.random() < 0.2 else "tm"
+        via = rng.choice(["setter", "decoded-setter", "bytearray"]) if rng.random() < 0.4 else "tm"
         if rng.random() < 0.2:
             via, p["service"], p["msgcnt"] = "srv17", 17, 0
         yield record("tm.rt", {"p": p, "sfx": sfx, "via": via})
